@@ -28,7 +28,10 @@ RULE = ("channel objects {TdlChannel SISO, TdlMimoChannel, SuChannel (with / "
         "output from it (direct tap loop / defining-sum DFT).  Signature = "
         "(object kind, antennas, generator, domain, selection kind, direction, "
         "position in history); non-trivial = more than one tap or antenna, or "
-        "a later transmission of a history.")
+        "a later transmission of a history.  "
+        "Frequency-domain cases include channel memory of one, two and several "
+        "fft sizes (taps fold onto the grid); single-link path loss includes "
+        "exactly 0. ")
 ASSUMPTIONS = ["for channel memory >= fft size the DFT of the reported response is "
                "the defining sum over ALL taps, sum_d h[d] exp(-2 pi i k d / fft) "
                "(taps fold onto the fft grid; the same reading C02's exact "
